@@ -1,7 +1,34 @@
 # Claims table used by gen_manifest.py: one entry per property that has a check.
 not_applicable = {}
+_trust = " Trusted base: go/types + go/ssa (x/tools v0.29.0), the rule implementations, documented behaviour of the library APIs named in the rules."
+_why = " A behavioural proof over inputs/schedules is out of reach of static analysis; these clauses are what the shape of the code can settle, for every path and site rather than the cases the test suite samples."
+claims["C05"] = dict(
+  technique="static analysis: SSA may/must dataflow over pdata RemoveIf callbacks, identity-field completeness derived from pdata method sets, CFG must-pass-through on the shutdown drain, value-flow agreement of counters, stale-capture dataflow, guard truth tables",
+  text="Decides structural necessary conditions of exactly-once delivery with intact content for all paths of the batch processor: RemoveIf callbacks remove exactly what they transferred (C05.1); every split fragment container receives every identity field of its pdata type (C05.2); the exported request never aliases the pending buffer (C05.4, C05.11); count units agree (C05.5); shutdown drains the queue through the item handler and flushes (C05.6, C05.7); split size, counter and reported size are one value and the counter follows content (C05.8, C05.9); capacity tests read live state (C05.10)."+_why,
+  note="Not decided: goroutine interleavings, that pdata MoveTo/RemoveIf/MoveAndAppendTo behave as documented, arithmetic of running totals."+_trust,
+  ref="DESIGN.md section 4, C05")
+claims["C06"] = dict(
+  technique="static analysis: SSA value-flow slices of the response payload, loop-carried (phi) analysis of the waiter, AST path-condition truth tables of the apportioning guard, select-arm path rules",
+  text="Decides structural necessary conditions of 'each caller gets the true outcome of its own items': response channel iff !early_return (C06.1); enqueue outcomes (C06.2); every contributor is sent the export result with its own count after the export (C06.3); apportioning guard and arithmetic (C06.4); waiter countdown, loop-carried error join, context arm (C06.5); Unwrap (C06.6); one pending entry per request (C06.7). This is the thinnest claim of the set: that the counts add up over all arrival orders is arithmetic over run-time quantities and is not decided."+_why,
+  note="Not decided: sums over arrival orders, promptness, at-most-once delivery after cancellation."+_trust,
+  ref="DESIGN.md section 4, C06")
+claims["C09"] = dict(
+  technique="static analysis: AST path conditions evaluated as truth tables over a finite order domain (guards of send, split, flush, timer creation, Validate), CFG must-pass-through for timer re-arming with wrapper summaries",
+  text="Decides structural necessary conditions of the size limits and flush conditions: no send with an empty batch (C09.1); split iff max>0 and count>max with size max (C09.2); Validate rejects exactly max>0 and max<size, or timeout<0 (C09.3); flush iff count>0 and (no timer or count>=size), timer exists iff timeout!=0 and size!=0 (C09.4); the timer arm and every size-triggered send re-arm the timer (C09.5); split capacity tests read live state (C09.6). Wall-clock deadlines are a run-time quantity no static argument here can bound and are NOT claimed."+_why,
+  note="Not decided: any timing bound, behaviour while the concurrency semaphore holds exports back. Assumes go 1.23 timer semantics (module go directive)."+_trust,
+  ref="DESIGN.md section 4, C09")
+claims["C10"] = dict(
+  technique="static analysis: must-held lockset dataflow over the CFG, guard truth tables for the cardinality test, SSA value-flow agreement between lookup key and export metadata, loop-coverage analysis over the configured keys",
+  text="Decides structural necessary conditions of tenant isolation and the cardinality limit: limit test, LoadOrStore, size update and shard start in one critical section and size only under the lock (C10.1); refuse iff limit!=0 and size>=limit with a permanent error (C10.2); key and metadata from the same Metadata.Get value over all keys, injectively (C10.3); own batch and queue per shard (C10.4); processor-owned export context carrying this key's metadata (C10.5)."+_why,
+  note="Not decided: interleavings beyond the lock discipline, sync.Map internals, attribute.Set equality."+_trust,
+  ref="DESIGN.md section 4, C10")
+claims["C11"] = dict(
+  technique="static analysis: goroutine-root call graph with per-field access map and must-held locksets (confinement or common lock), CFG pairing rules for semaphore Acquire/Release and WaitGroup Add/Done, select-arm rules",
+  text="Decides structural necessary conditions of bounded concurrency, shutdown drain and race freedom: semaphore exists iff configured, acquired before every export spawn with a non-cancellable context, released by a defer established first (C11.1); every go statement covered by Add(1)/deferred Done, Shutdown closes then waits (C11.2); every field written after construction is confined to the shard's loop goroutine or accessed under a common mutex (C11.3); cancellable sends (C11.4); shard loop drains and returns on shutdown (C11.5). A necessary-condition race check, not a proof of race or deadlock freedom."+_why,
+  note="Not decided: deadlock freedom in general, leaks of callers, races inside pdata / otel SDK / semaphore."+_trust,
+  ref="DESIGN.md section 4, C11")
 claims["C18"] = dict(
-  technique="static analysis: SSA loop-coverage analysis of the single-context predicate, backward value-flow slices of the export context, access-path agreement of contributor tuples, select-arm pairing",
-  text="Decides, for all paths of the batch processor's export code, structural necessary conditions of the property: the single-context predicate examines every contributor; the export context derives only from the shard's own context on the multi-contributor arm and from a contributor on the single arm; links are built to and from every contributor; contributor tuples carry their own context; sends to waiters are cancellable by the same contributor. A behavioural proof over schedules is out of reach of static analysis; these clauses are what the code shape can settle, for every path rather than the sampled schedules of the test suite.",
-  note="Not decided: what downstream consumers do with a cancelled context, span contents, any schedule-dependent behaviour. Trusted: go/ssa construction, Tracer.Start deriving its context from its first argument.",
+  technique="static analysis: SSA loop-coverage analysis of the single-context predicate, backward value-flow slices of the export context (interprocedural through call sites), access-path agreement of contributor tuples, select-arm pairing",
+  text="Decides structural necessary conditions of 'one caller's context never decides another caller's fate': the single-context predicate examines every contributor (C18.1); the export context derives only from the shard's own context on the multi-contributor arm and from a contributor on the single arm (C18.2); links to and from every contributor (C18.3); contributor tuples and pending entries carry their own request's context (C18.4, C18.6); cancellable sends (C18.5); the shard's export context never derives from a request context (C18.7)."+_why,
+  note="Not decided: what downstream consumers do with a cancelled context, span contents, schedule-dependent behaviour. Assumes Tracer.Start derives its context from its first argument."+_trust,
   ref="DESIGN.md section 4, C18")
